@@ -28,10 +28,10 @@ type codecBytes struct {
 	Msg    string `json:"msg"`
 	Entry  string `json:"entry"` // plain | family | direct
 	Hex    string `json:"hex"`
-	Logger string `json:"library_logger_level,omitempty"` // "trace": the case ran with the library's diagnostics on
+	Logger string `json:"library_logger_level,omitempty"` // "info": the case ran at the library's default log level instead of trace
 }
 
-// codecTraceMode is set while the explorer runs with the library logger at trace level (recorded in every case)
+// codecTraceMode is set while the explorer runs with the library logger at its default level (everything else runs at trace level) (recorded in every case)
 var codecTraceMode bool
 
 func patByte(m *bind.Msg, pat, i int) byte {
@@ -560,9 +560,9 @@ func (x *codecExplorer) explore() {
 		}
 		x.repetitionFamily(m, min2)
 		// diagnostics on: the mandatory part with every value of every one-octet element, alone and followed by each
-		// minimal optional token, with the library logger at trace level
-		if x.mine() && x.c.Begin("state", m.Name, map[string]any{"msg": m.Name, "logger": "trace"}) {
-			withTraceLogging(func() {
+		// minimal optional token, with the library logger at its default level (everything else runs at trace level)
+		if x.mine() && x.c.Begin("state", m.Name, map[string]any{"msg": m.Name, "logger": "info"}) {
+			withDefaultLogging(func() {
 				codecTraceMode = true
 				defer func() { codecTraceMode = false }()
 				x.states++
@@ -768,7 +768,7 @@ func (x *codecExplorer) longInputs() {
 func describeCase(m *bind.Msg, entry string, data []byte) codecBytes {
 	cb := codecBytes{Msg: m.Name, Entry: entry, Hex: fmt.Sprintf("%x", data)}
 	if codecTraceMode {
-		cb.Logger = "trace"
+		cb.Logger = "info"
 	}
 	return cb
 }
